@@ -456,7 +456,9 @@ def main():
                 tests = ' | tests: ' + run_tests(d)
             lines.append('%-14s %s %-13s %5.1fs %s  # %s%s' % (m['id'], m['prop'], verdict, wall, ','.join(clauses), m['note'], tests))
             want_rc = 0 if m.get('expect') == 'clean' else 1
-            if rc != want_rc:
+            if m.get('expect') == 'either' and rc in (0, 1):
+                pass        # a change whose demonstrated effect is accepted by decision but which has a rarer side effect that is not
+            elif rc != want_rc:
                 bad_here = 1
                 lines.append('   ^^^ UNEXPECTED: wanted rc=%d' % want_rc)
                 if args.show or rc == 2 or want_rc == 0:
